@@ -213,7 +213,19 @@ func checkModel(m *ref.SpecModel, src string) error {
 			}
 		}
 	}
-	return checkNoAddedProductions(m, sp, src)
+	if err := checkNoAddedProductions(m, sp, src); err != nil {
+		return err
+	}
+	// what is recorded stays recorded: building the parsing table (what the tool does next) reads the levels
+	if len(sp.Productions()) <= 7 {
+		before := renderLevels(sp)
+		_ = rec.Guard(func() { _, _ = sp.LALRParsingTable() })
+		rec.Count("levels_read_again_after_table_construction", 1)
+		if now := renderLevels(sp); now != before {
+			return fmt.Errorf("after the LALR(1) table was built from the specification, the recorded levels are no longer the directives:\n--- recorded by Parse:\n%s--- after LALRParsingTable():\n%s\nspecification:\n%s", before, now, src)
+		}
+	}
+	return nil
 }
 
 // canon is the text of a right-hand side with the alternatives of every alternation in a fixed order.
